@@ -5,6 +5,8 @@
 (*      the compiled script and its predicted size; whether the script     *)
 (*      reads back to an expression compiling to the same script and the   *)
 (*      text re-parses to the same expression                              *)
+(*  type {ast, ctx, valid, base, mods[]}  the library's typing of an        *)
+(*      expression, well typed or not                                      *)
 (*  sat {ast, script, tx, prevouts[], idx, flags[], sigs[], pre[],         *)
 (*       produced, stack[], max_ops, max_items, max_size}                  *)
 (*      a satisfaction asked for with some signatures, preimages and lock  *)
@@ -33,6 +35,10 @@ Check(e) ==
                           /\ Len(e.stack) <= e.max_items
                           /\ SumLen([k \in 1..Len(e.stack) |-> FromHex(e.stack[k])]) <= e.max_size
                           /\ ExecutedOps(e) <= e.max_ops
+    \* the type the library gives an expression (base type and the modifiers z o n d u), or its refusal of an ill-typed one
+    [] e.op = "type" -> LET ok == WellTyped(e.ast, e.ctx)  t == TypeOf(e.ast, e.ctx) IN
+                          /\ e.valid = (ok /\ t.t = "B")          \* (a whole expression is a "B": parse refuses the others)
+                          /\ e.valid => (t.t = e.base /\ t.m = {e.mods[k] : k \in 1..Len(e.mods)})
     [] e.op = "verify" -> LET v == Verdict(e) IN v = "UNMODELLED" \/ e.ok = (v = "")
     [] e.op = "holds" -> e.ok
     [] e.op = "fails" -> ~e.ok
@@ -41,5 +47,6 @@ Diag == i > 0 => PrintT(<<"DIAG", i, <<Trace[i].op,
      CASE Trace[i].op = "compile" -> ToHex(Script(Trace[i].ast))
        [] Trace[i].op = "sat" -> <<ToHex(Script(Trace[i].ast)), Holds(Trace[i].ast, AvOf(Trace[i])),
                                    IF Trace[i].produced THEN <<Verdict(Trace[i]), ExecutedOps(Trace[i])>> ELSE <<"-", 0>>>>
+       [] Trace[i].op = "type" -> <<WellTyped(Trace[i].ast, Trace[i].ctx), TypeOf(Trace[i].ast, Trace[i].ctx)>>
        [] OTHER -> "-">>>>)
 =============================================================================
